@@ -335,6 +335,24 @@ impl Session {
         }
     }
 
+    /// Verification hook: `last_use` in timer ticks.
+    #[cfg(rs_matter_verif)]
+    pub fn verif_last_use_ticks(&self) -> u64 {
+        self.last_use.as_ticks()
+    }
+
+    /// Verification hook: overwrite `last_use` (timer ticks).
+    #[cfg(rs_matter_verif)]
+    pub fn verif_set_last_use_ticks(&mut self, ticks: u64) {
+        self.last_use = Instant::from_ticks(ticks);
+    }
+
+    /// Verification hook: set the `expired` flag.
+    #[cfg(rs_matter_verif)]
+    pub fn verif_set_expired(&mut self, expired: bool) {
+        self.expired = expired;
+    }
+
     /// Verification hook: `set_session_mode`.
     #[cfg(rs_matter_verif)]
     pub fn verif_set_session_mode(&mut self, mode: SessionMode) {
@@ -1260,6 +1278,14 @@ impl<'a> ReservedSession<'a> {
 
     pub fn complete(&mut self) {
         self.complete = true;
+    }
+}
+
+/// Verification hook: the unique id of the reserved slot.
+#[cfg(rs_matter_verif)]
+impl ReservedSession<'_> {
+    pub fn verif_id(&self) -> u32 {
+        self.id
     }
 }
 
